@@ -84,6 +84,7 @@ func (e *Engine) verifyFuncMode(name, kf string) (*VC, error) {
 		binds = append(binds, v)
 	}
 	vc.params = params
+	vc.topCon = con
 	fr := &Frame{fn: fn, params: params, binds: binds, con: con, entry: st.clone()}
 	fr.prepare()
 	fr.specVars = specVarsFor(fn, params, nil)
@@ -190,6 +191,9 @@ func (e *Engine) verifyFuncMode(name, kf string) (*VC, error) {
 				o.Except = c.Except
 				o.Src = fmt.Sprintf("[return at %s] %s", vc.pos(retPos).String(), c.Src)
 			}
+			if con.Flags["frame-per-return"] && !con.Flags["noframe"] {
+				vc.checkFrame(fr, rst, con, &Env{vc: vc, st: rst, old: fr.entry, vars: vars}, fmt.Sprintf("@ret%d", k))
+			}
 		}
 	}
 	exit, results := vc.execBody(fr, st)
@@ -221,15 +225,15 @@ func (e *Engine) verifyFuncMode(name, kf string) (*VC, error) {
 			vc.oblige(exit, "lemma", "holds", results[0].S, con.Pos, name+" returns true")
 		}
 	}
-	if !con.Flags["noframe"] {
-		vc.checkFrame(fr, exit, con, penv)
+	if !con.Flags["noframe"] && !(perReturn && con.Flags["frame-per-return"]) {
+		vc.checkFrame(fr, exit, con, penv, "")
 	}
 	return vc, nil
 }
 
 // checkFrame: everything allocated before the call and not named by a modifies
 // clause is unchanged at exit.
-func (vc *VC) checkFrame(fr *Frame, exit *State, con *Contract, env *Env) {
+func (vc *VC) checkFrame(fr *Frame, exit *State, con *Contract, env *Env, suffix string) {
 	entry := fr.entry
 	type target struct{ lo, hi string }
 	heapT := map[string][]target{}
@@ -283,7 +287,7 @@ func (vc *VC) checkFrame(fr *Frame, exit *State, con *Contract, env *Env) {
 			outside = append(outside, fmt.Sprintf("(not (and (<= %s a) (< a %s)))", tg.lo, tg.hi))
 		}
 		g := fmt.Sprintf("(forall ((a Int)) (=> %s (= (select %s a) (select %s a))))", and(outside...), h1, h0)
-		vc.oblige(exit, "frame", "heap["+k+"]", g, con.Pos, "only the declared objects of type "+k+" are written")
+		vc.oblige(exit, "frame", "heap["+k+"]"+suffix, g, con.Pos, "only the declared objects of type "+k+" are written")
 	}
 	for _, k := range sortedKeys(exit.mdom) {
 		if mapAll[k] {
@@ -306,7 +310,7 @@ func (vc *VC) checkFrame(fr *Frame, exit *State, con *Contract, env *Env) {
 		ks := vc.u.sortOf(vc.u.mapKeys[k].Key())
 		g = fmt.Sprintf("(forall ((m Int) (k %s)) (=> %s (and (= (select (select %s m) k) (select (select %s m) k)) (=> (select (select %s m) k) (= (select (select %s m) k) (select (select %s m) k))))))",
 			ks, and(outside...), exit.mdom[k], d0, d0, exit.mval[k], v0)
-		vc.oblige(exit, "frame", "maps["+k+"]", g, con.Pos, "only the declared maps of type "+k+" are written")
+		vc.oblige(exit, "frame", "maps["+k+"]"+suffix, g, con.Pos, "only the declared maps of type "+k+" are written")
 	}
 }
 
